@@ -82,6 +82,10 @@ def make_object(spec, frame="base_link", ego=None, t=100):
         c, s = ego["cs"]
         x, y, z = c * x - s * y + ego["t"][0], s * x + c * y + ego["t"][1], z + ego["t"][2]
         yaw = yaw + math.atan2(s, c)
+        if spec.get("map_int") is not None:
+            # the same map-frame position handed over as Python ints (integer-valued by construction of the scene)
+            assert [float(v) for v in spec["map_int"]] == [x, y, z], (spec["map_int"], x, y, z)
+            x, y, z = (int(v) for v in spec["map_int"])
     return DynamicObject(
         unix_time=t, frame_id=FrameID.MAP if frame == "map" else FrameID.BASE_LINK, position=(x, y, z),
         orientation=Quaternion(axis=(0.0, 0.0, 1.0), radians=yaw),
@@ -103,12 +107,19 @@ def ego_transform(ego):
     return HomogeneousMatrix(tuple(ego["t"]), Quaternion(axis=(0.0, 0.0, 1.0), radians=yaw), src=FrameID.BASE_LINK, dst=FrameID.MAP)
 
 
-def make_gt_frame(fr, frame="base_link", name=None):
+def make_gt_frame(fr, frame="base_link", name=None, tf_mode="pose"):
+    """tf_mode (ego-frame renderings only): "pose" = the ego->map transform is attached (as the dataset loader does), "empty" = an empty
+    transform list, "none" = no transforms argument -- an ego-frame frame needs no transform"""
     from perception_eval.common.dataset import FrameGroundTruth
 
     ego = fr.get("ego")
     objs = [make_object(g, frame, ego, fr["t"]) for g in fr["gts"]]
-    return FrameGroundTruth(fr["t"], name if name is not None else str(fr["index"]), objs, transforms=[ego_transform(ego)])
+    nm = name if name is not None else str(fr["index"])
+    if frame != "map" and tf_mode == "empty":
+        return FrameGroundTruth(fr["t"], nm, objs, transforms=[])
+    if frame != "map" and tf_mode == "none":
+        return FrameGroundTruth(fr["t"], nm, objs)
+    return FrameGroundTruth(fr["t"], nm, objs, transforms=[ego_transform(ego)])
 
 
 def make_estimates(fr, frame="base_link"):
